@@ -624,6 +624,12 @@ func (g *G) Record(depth int) types.Record {
 	for i := 0; i < k; i++ {
 		m[types.String(g.attrName())] = g.Value(depth)
 	}
+	if g.T.Intn(8) == 7 {
+		// a wide record: more attributes than any small fixed limit
+		for _, f := range []types.String{"x1", "x2", "x3", "x4", "x5", "x6", "x7"} {
+			m[f] = types.Long(len(f))
+		}
+	}
 	return types.NewRecord(m)
 }
 
